@@ -373,13 +373,26 @@ func (s *pState) render(cw *cwriter.Writer) (err error) {
 func (s *pState) flush(cw *cwriter.Writer, height int, iter <-chan *Bar) error {
 	var popCount int
 	var rows []io.Reader
+	var err error
 
 	for b := range iter {
 		frame := <-b.frameCh
 		if frame.err != nil {
-			close(s.iterDrop)
+			if err == nil {
+				err = frame.err
+			}
 			b.cancel()
-			return frame.err // b.frameCh is buffered it's ok to return here
+			continue
+		}
+		if err != nil {
+			// the cycle is abandoned, but its remaining frames are still
+			// collected: dropping them would leave the bars which are in
+			// the middle of width sync blocked there forever.
+			for _, row := range frame.rows {
+				_, _ = io.Copy(io.Discard, row)
+			}
+			s.hm.push(b, false)
+			continue
 		}
 		var usedRows int
 		for i := len(frame.rows) - 1; i >= 0; i-- {
@@ -414,6 +427,10 @@ func (s *pState) flush(cw *cwriter.Writer, height int, iter <-chan *Bar) error {
 		default:
 			s.hm.push(b, false)
 		}
+	}
+
+	if err != nil {
+		return err
 	}
 
 	for i := len(rows) - 1; i >= 0; i-- {
